@@ -750,6 +750,7 @@ var batchSettle = 1 * time.Millisecond
 func runBatchScenario(cfg BatchCfg, sc *BatchScript, seed int64) []Event {
 	reg := NewRegistry()
 	reg.NoTypedNil = true
+	reg.RunCtxKind = cfg.CtxKind
 	b := &batchRun{settle: batchSettle, cfg: cfg, sc: sc, reg: reg, store: flyt.NewSharedStore(), gids: map[int64]int{}, att: map[int]int{},
 		parkCh: make(chan struct{}, 1), done: make(chan struct{}), rng: rand.New(rand.NewSource(seed)), barrier: make(chan struct{})}
 	b.barrierN = cfg.C
@@ -780,10 +781,14 @@ func runBatchScenario(cfg BatchCfg, sc *BatchScript, seed int64) []Event {
 		b.mu.Unlock()
 	}
 	var ctx context.Context
-	if cfg.CtxKind == "deadline" {
+	switch cfg.CtxKind {
+	case "deadline":
 		mc := newManualDeadlineCtx()
 		ctx, b.cancel = mc, mc.expire
-	} else {
+	case "cause":
+		c2, cancel := context.WithCancelCause(context.Background())
+		ctx, b.cancel = c2, func() { cancel(fmt.Errorf("service shutting down")) }
+	default:
 		c2, cancel := context.WithCancel(context.Background())
 		ctx, b.cancel = c2, cancel
 	}
